@@ -23,9 +23,17 @@ type World struct {
 	reqs   map[string]*Req
 	Sims   []*SimH
 	Chains map[int][]int // chain id -> hids in chain order (simulated handlers only)
+	Full   map[int][]Entry // chain id -> every handler in chain order
 	names  map[int]string
 	// RegErrors lists registrations flamego rejected (deterministic, reported).
 	RegErrors []string
+}
+
+// Entry is one handler of a chain: a simulated one (HID>=0) or a built-in.
+type Entry struct {
+	Kind  int
+	HID   int
+	Shape int
 }
 
 // BuildOpts carries the environment-dependent parts of a build.
@@ -66,7 +74,7 @@ func (w *World) newSim(spec HSpec, pos, chain int, label string) *SimH {
 
 // Build constructs the instance. It must run before any task starts.
 func Build(s *Setup, reqs []*Req, o BuildOpts) *World {
-	w := &World{Setup: s, reqs: map[string]*Req{}, Chains: map[int][]int{}, names: map[int]string{}}
+	w := &World{Setup: s, reqs: map[string]*Req{}, Chains: map[int][]int{}, Full: map[int][]Entry{}, names: map[int]string{}}
 	for _, q := range reqs {
 		w.reqs[q.Name] = q
 	}
@@ -85,8 +93,11 @@ func Build(s *Setup, reqs []*Req, o BuildOpts) *World {
 		})
 	}
 
-	var appSims []int
-	mk := func(spec HSpec, pos, chain int, label string, sims *[]int) flamego.Handler {
+	var appSims []Entry
+	mk := func(spec HSpec, pos, chain int, label string, sims *[]Entry) flamego.Handler {
+		if spec.Kind != HkSim {
+			*sims = append(*sims, Entry{Kind: spec.Kind, HID: -1})
+		}
 		switch spec.Kind {
 		case HkLogger:
 			return flamego.Logger()
@@ -120,7 +131,7 @@ func Build(s *Setup, reqs []*Req, o BuildOpts) *World {
 			}
 		}
 		h := w.newSim(spec, pos, chain, label)
-		*sims = append(*sims, h.HID)
+		*sims = append(*sims, Entry{Kind: HkSim, HID: h.HID, Shape: spec.Shape})
 		return h.handler()
 	}
 
@@ -145,33 +156,39 @@ func Build(s *Setup, reqs []*Req, o BuildOpts) *World {
 	}
 	base := len(s.Mw)
 
-	var actionHID = -1
+	var action []Entry
 	if s.Action != nil {
-		var tmp []int
-		f.Action(mk(*s.Action, ActionPos, -2, "action", &tmp))
-		actionHID = tmp[0]
+		f.Action(mk(*s.Action, ActionPos, -2, "action", &action))
+	}
+	setChain := func(id int, l []Entry) {
+		l = append(l, action...)
+		w.Full[id] = l
+		var hs []int
+		for _, e := range l {
+			if e.HID >= 0 {
+				hs = append(hs, e.HID)
+			}
+		}
+		w.Chains[id] = hs
 	}
 	if s.NotFound != nil {
-		var sims []int
+		sims := append([]Entry{}, appSims...)
 		var hs []flamego.Handler
 		for i, spec := range s.NotFound {
 			hs = append(hs, mk(spec, base+i, -1, "nf"+itoa(i), &sims))
 		}
 		f.NotFound(hs...)
-		w.Chains[-1] = append(append([]int{}, appSims...), sims...)
+		setChain(-1, sims)
 	} else {
-		w.Chains[-1] = append([]int{}, appSims...)
-	}
-	if actionHID >= 0 {
-		w.Chains[-1] = append(w.Chains[-1], actionHID)
+		setChain(-1, append([]Entry{}, appSims...))
 	}
 
-	var walk func(nodes []Node, pos int, groupSims []int)
-	walk = func(nodes []Node, pos int, groupSims []int) {
+	var walk func(nodes []Node, pos int, groupSims []Entry)
+	walk = func(nodes []Node, pos int, groupSims []Entry) {
 		for _, n := range nodes {
 			if n.Group != nil {
 				g := n.Group
-				sims := append([]int{}, groupSims...)
+				sims := append([]Entry{}, groupSims...)
 				var hs []flamego.Handler
 				for i, spec := range g.Hs {
 					hs = append(hs, mk(spec, pos+i, -2, "g"+g.Path+itoa(i), &sims))
@@ -180,7 +197,7 @@ func Build(s *Setup, reqs []*Req, o BuildOpts) *World {
 				continue
 			}
 			r := n.Route
-			sims := append([]int{}, groupSims...)
+			sims := append([]Entry{}, groupSims...)
 			var hs []flamego.Handler
 			for i, spec := range r.Hs {
 				hs = append(hs, mk(spec, pos+i, r.Index, "r"+itoa(r.Index)+"h"+itoa(i), &sims))
@@ -226,14 +243,7 @@ func Build(s *Setup, reqs []*Req, o BuildOpts) *World {
 					w.names[r.Index] = r.Name
 				}
 			}()
-			chain := append(append([]int{}, appSims...), sims...)
-			// Handlers of this route were tagged with chain -2 when they belong
-			// to groups; fix the chain of group handlers is not needed: the
-			// chain table is what the oracles use.
-			if actionHID >= 0 {
-				chain = append(chain, actionHID)
-			}
-			w.Chains[r.Index] = chain
+			setChain(r.Index, append(append([]Entry{}, appSims...), sims...))
 		}
 	}
 	walk(s.Nodes, base, nil)
